@@ -5,6 +5,8 @@ import (
 	"encoding/binary"
 	"fmt"
 	"strings"
+	"sync"
+	"sync/atomic"
 	"testing"
 	"time"
 
@@ -236,4 +238,53 @@ func TestVPKnown_C29_burst(t *testing.T) {
 	if again > 0 {
 		t.Fatalf("VPFAIL C29 in %d of 6 rounds a genuine command was accepted a second time after 30 000 unsigned commands with fresh ids and one cache maintenance run", again)
 	}
+}
+
+// TestVP_C29_Concurrent: copies of one validly signed command arriving from several
+// neighbours at the same moment (a flooded command reaches an agent over every link it has).
+// Per case 50-300 fresh commands, each handed to the real Flooder by 2-8 goroutines released
+// together; exactly one of the copies may be reported as new.
+func TestVP_C29_Concurrent(t *testing.T) {
+	st := vp.NewStats("C29", "concurrent", "real Flooder with a signing key; per case 50-300 fresh signed sleep/wake commands, each delivered by 2-8 goroutines (distinct neighbours) released by a spin barrier; accepted copies per command must be exactly 1; non-trivial = always (>= 2 concurrent copies)")
+	defer st.Flush()
+	rapid.Check(t, func(t *rapid.T) {
+		pub, priv, _ := ed25519.GenerateKey(nil)
+		var pk [32]byte
+		copy(pk[:], pub)
+		cfg := DefaultFloodConfig()
+		cfg.SigningPublicKey = &pk
+		local := vpSimID(0)
+		f := NewFlooder(cfg, local, routing.NewManager(local), &vpC29Sender{})
+		defer f.Stop()
+		origin := vpSimID(3)
+		rounds := rapid.IntRange(50, 300).Draw(t, "commands")
+		g := rapid.IntRange(2, 8).Draw(t, "copies")
+		wake := rapid.Bool().Draw(t, "wake")
+		idc := uint64(time.Now().UnixNano())
+		for r := 0; r < rounds; r++ {
+			idc++
+			c := &vpC29Cmd{wake: wake, id: idc, ts: uint64(time.Now().Unix())}
+			c.sig = vpC29Sign(priv, origin, c.id, c.ts)
+			var ready, accepted atomic.Int64
+			var wg sync.WaitGroup
+			for i := 0; i < g; i++ {
+				wg.Add(1)
+				go func(i int) {
+					defer wg.Done()
+					from := vpSimID(10 + i)
+					ready.Add(1)
+					for ready.Load() < int64(g) {
+					}
+					if vpC29Deliver(f, c, origin, from) {
+						accepted.Add(1)
+					}
+				}(i)
+			}
+			wg.Wait()
+			if n := accepted.Load(); n != 1 {
+				t.Fatalf("VPFAIL C29 %d of %d copies of one signed command that arrived together were each accepted as new (command %d of the run, wake=%v)", n, g, r+1, wake)
+			}
+		}
+		st.Case(fmt.Sprintf("commands=%d copies=%d wake=%v", rounds, g, wake), true, fmt.Sprintf("copies-%d", g))
+	})
 }
